@@ -3,7 +3,9 @@
 (* of block intervals) and the compact sweep, and writes each complete walk's history.             *)
 EXTENDS SchedulePow, Json
 RECURSIVE DSeq(_, _)
-DSeq(ch, h) == IF h > Len(ch) THEN "" ELSE ToString((ch[h].q - Q(ch, h - 1)) % 7) \o DSeq(ch, h + 1)
+DSeq(ch, h) == IF h > Len(ch) THEN ""
+              ELSE LET d == ch[h].q - Q(ch, h - 1) IN
+                   (IF d = 1 THEN "1" ELSE IF d = 4 * pc.period THEN "2" ELSE "3") \o DSeq(ch, h + 1)
 WalkId == ToString(IF pc.mode = "btc" THEN 1 ELSE IF pc.mode = "legacy" THEN 2 ELSE 3) \o ToString(pc.gap) \o DSeq(chain, 1)
 Dump == Done => JsonSerialize("out/b_" \o WalkId \o ".json", hist)
 =============================================================================
